@@ -201,6 +201,13 @@ def gen_script(rnd, tier):
         L.append("decl %s = %s" % (nm, " ".join(t)))
         names.append(nm)
         pool += [int(x[1:]) for x in t if x[0] == "i"]
+    for _ in range(rnd.randint(1, 2)):
+        # the same arguments given to directlyProvides (interfaces and CLASS SPECIFICATIONS, flat), read back with directlyProvidedBy
+        for _ in range(6):
+            t = [("c%d" % rnd.randint(1, nc)) if nc and rnd.random() < 0.4 else "i%d" % rnd.randint(1, n) for _ in range(rnd.randint(1, 4))]
+            if tree_consistent(ib, cls, t):
+                L.append("dpby = " + " ".join(t))
+                break
     for nm in names:
         L.append("iter " + nm)
         L.append("memall " + nm)
@@ -458,6 +465,14 @@ def oracle(chk, lines, outs):
         def ext(a, b):       # a is or extends b
             return b in c03.reach(ib, a)
 
+        if f[0] == "dpby":
+            want = [x for x in dedupe(flatten(ib, cls, parse(f[2:])[0])) if x != 0]
+            chk.count("directlyProvidedBy_read_back")
+            if any(t[0] == "c" for t in f[2:]):
+                chk.count("directlyProvides_given_a_class_specification")
+            if [int(x) for x in out.split()] != want:
+                bad.append((i, "directlyProvides(ob, %s) then directlyProvidedBy(ob) = [%s]; what was given, flattened without duplicates, is %s" % (" ".join(f[2:]), out, want)))
+            continue
         got = [int(x) for x in out.split()] if f[0] in ("iter", "memall", "sub", "add", "flat") else None
         if f[0] == "iter":
             chk.count("iterations_judged")
